@@ -104,16 +104,19 @@ Section System.
   Proof. intros H. exact H. Qed.
 
   (* the entity persisted by a create / update through a store of the family of s *)
-  Lemma persist_flag s0 create sys fv sv ch e :
-    root_of sch s0 = s -> find_store sch s0 <> None ->
+  (* (the store s only has to exist: this and the lemmas marked _gen / the flag-immutability lemmas below do not use the
+     constraint, they hold for the family of any root store - Store/SystemChild.v uses them for the families whose constraint
+     sits on a child store) *)
+  Lemma persist_flag_gen s0 create sys fv sv ch e :
+    root_of sch s0 = s -> find_store sch s0 <> None -> find_store sch s <> None ->
     ent_field (persist sch s0 create sys fv sv ch e) isSystemF =
     if create && sys then FBool true else ent_field e isSystemF.
   Proof.
-    intros Hr Hf. unfold persist. destruct (find_store sch s0) as [d|] eqn:Ed; [|congruence].
+    intros Hr Hf Hs. unfold persist. destruct (find_store sch s0) as [d|] eqn:Ed; [|congruence].
     pose proof (Hnofield _ _ Ed) as Hd.
     unfold root_of in Hr. rewrite Ed in Hr.
     destruct (sd_parent d) as [p|].
-    - subst p. destruct find_store_s as [pd Epd]. rewrite Epd.
+    - subst p. destruct (find_store sch s) as [pd|] eqn:Epd; [|congruence].
       pose proof (Hnofield _ _ Epd) as Hpd. unfold ent_field. cbn [e_f].
       destruct (create && sys).
       + rewrite al_get_put_same. reflexivity.
@@ -121,6 +124,14 @@ Section System.
     - unfold ent_field. cbn [e_f]. destruct (create && sys).
       + rewrite al_get_put_same. reflexivity.
       + rewrite (persist_fields_other _ fv ch isSystemF _ Hd). reflexivity.
+  Qed.
+
+  Lemma persist_flag s0 create sys fv sv ch e :
+    root_of sch s0 = s -> find_store sch s0 <> None ->
+    ent_field (persist sch s0 create sys fv sv ch e) isSystemF =
+    if create && sys then FBool true else ent_field e isSystemF.
+  Proof.
+    intros Hr Hf. apply persist_flag_gen; [exact Hr | exact Hf|]. destruct find_store_s as [pd ->]. discriminate.
   Qed.
 
   (* ================================================================ the hooks refuse *)
@@ -204,11 +215,12 @@ Section System.
   Qed.
 
   (* a successful create stores exactly the requested flag *)
-  Lemma op_create_flag oc st evs s0 i sys fv sv st' evs' :
+  Lemma op_create_flag_gen oc st evs s0 i sys fv sv st' evs' :
+    find_store sch s <> None ->
     root_of sch s0 = s -> op_create sch oc (st, evs) s0 i sys fv sv = Ok (st', evs') ->
     flag st' i = if sys then FBool true else FAbsent.
   Proof.
-    intros Hr H. unfold op_create in H. destruct (find_store sch s0) as [d0|] eqn:Ed; [|discriminate].
+    intros Hex Hr H. unfold op_create in H. destruct (find_store sch s0) as [d0|] eqn:Ed; [|discriminate].
     destruct (negb (nonempty i)); [discriminate|].
     destruct (present sch st s0 i); [discriminate|].
     destruct (present sch st (root_of sch s0) i); [discriminate|].
@@ -217,8 +229,15 @@ Section System.
     destruct (after_chain sch _ true (oc_sys oc) i (chain sch s0) []) as [st2|e] eqn:Eac; cbn [bind] in H; [|discriminate].
     inversion H; subst st' evs'. rewrite Hr in Eac.
     rewrite (flag_fc _ _ i (after_chain_fc _ _ _ _ _ _ _ _ Eac)).
-    rewrite flag_set_ent_same, persist_flag; [|exact Hr | congruence].
+    rewrite flag_set_ent_same, persist_flag_gen; [|exact Hr | congruence | exact Hex].
     cbn [andb]. destruct sys; reflexivity.
+  Qed.
+
+  Lemma op_create_flag oc st evs s0 i sys fv sv st' evs' :
+    root_of sch s0 = s -> op_create sch oc (st, evs) s0 i sys fv sv = Ok (st', evs') ->
+    flag st' i = if sys then FBool true else FAbsent.
+  Proof.
+    apply op_create_flag_gen. destruct find_store_s as [pd ->]. discriminate.
   Qed.
 
   (* ================================================================ delete *)
@@ -324,9 +343,13 @@ Section System.
   Lemma persist_flag_update s0 fv sv ch e : root_of sch s0 = s ->
     ent_field (persist sch s0 false false fv sv ch e) isSystemF = ent_field e isSystemF.
   Proof.
-    intros Hr. destruct (find_store sch s0) as [d|] eqn:Ed.
-    - rewrite persist_flag; [reflexivity | exact Hr | congruence].
-    - unfold persist. rewrite Ed. reflexivity.
+    intros Hr. unfold persist. destruct (find_store sch s0) as [d|] eqn:Ed; [|reflexivity].
+    pose proof (Hnofield _ _ Ed) as Hd.
+    destruct (sd_parent d) as [p|].
+    - destruct (find_store sch p) as [pd|] eqn:Epd; [|reflexivity].
+      pose proof (Hnofield _ _ Epd) as Hpd. unfold ent_field. cbn [e_f andb].
+      rewrite (persist_fields_other _ fv ch isSystemF _ Hpd). reflexivity.
+    - unfold ent_field. cbn [e_f andb]. rewrite (persist_fields_other _ fv ch isSystemF _ Hd). reflexivity.
   Qed.
 
   Lemma update_in_flag oc st evs s0 i fv sv ch st' evs' j :
@@ -521,7 +544,7 @@ Lemma op_preserves_flag_lemma sch s fuel oc st evs o st' evs' j :
   get_field sch st' s j isSystemF = get_field sch st s j isSystemF.
 Proof.
   intros Hwf. destruct (wf_system_b_sound sch s Hwf) as [H1 [H2 [H3 H4]]].
-  exact (run_op_flag sch s H1 H2 H3 fuel oc st evs o st' evs' j).
+  exact (run_op_flag sch s H1 H3 fuel oc st evs o st' evs' j).
 Qed.
 
 Lemma system_flag_immutable_lemma sch s fuel j txs st :
@@ -530,7 +553,7 @@ Lemma system_flag_immutable_lemma sch s fuel j txs st :
   get_field sch (run_txs sch fuel st txs) s j isSystemF = get_field sch st s j isSystemF.
 Proof.
   intros Hwf. destruct (wf_system_b_sound sch s Hwf) as [H1 [H2 [H3 H4]]].
-  exact (run_txs_flag sch s H1 H2 H3 fuel j txs st).
+  exact (run_txs_flag sch s H1 H3 fuel j txs st).
 Qed.
 
 (* from its creation on: as long as the entity is not deleted, its flag is the one it was created with *)
@@ -542,7 +565,60 @@ Lemma flag_fixed_at_creation_lemma sch s fuel oc stev s0 j sys fv sv stev1 rest 
   get_field sch (fst stev') s j isSystemF = if sys then FBool true else FAbsent.
 Proof.
   intros Hwf Hr Hc Hrest Ha. destruct (wf_system_b_sound sch s Hwf) as [H1 [H2 [H3 H4]]].
-  pose proof (run_ops_flag sch s H1 H2 H3 fuel oc j rest stev1 rs stev' Hrest Ha) as Hf. unfold flag in Hf. rewrite Hf.
+  pose proof (run_ops_flag sch s H1 H3 fuel oc j rest stev1 rs stev' Hrest Ha) as Hf. unfold flag in Hf. rewrite Hf.
   destruct stev as [st evs], stev1 as [st1 evs1]. cbn [run_op] in Hc. cbn [fst].
   exact (op_create_flag sch s H1 H2 H3 oc st evs s0 j sys fv sv st1 evs1 Hr Hc).
+Qed.
+
+(* ================================================================ the flag in the family of ANY root store
+   (2a)-(2d) do not depend on where - or whether - the constraint is registered: s is an existing root store and no store
+   declares a field named isSystem.  These cover the families whose constraint sits on a child store only. *)
+Definition wf_flag_b (sch : schema) (s : name) : bool :=
+  negb (is_child sch s) && (match find_store sch s with Some _ => true | None => false end) &&
+  forallb (fun d => negb (declares_field d isSystemF)) sch.
+
+Lemma wf_flag_b_sound sch s : wf_flag_b sch s = true ->
+  is_child sch s = false /\ find_store sch s <> None /\
+  (forall x d, find_store sch x = Some d -> declares_field d isSystemF = false).
+Proof.
+  unfold wf_flag_b. intros H. apply andb_prop in H as [H H3]. apply andb_prop in H as [H1 H2].
+  apply negb_true_iff in H1. split; [exact H1|]. split.
+  - destruct (find_store sch s); [discriminate | discriminate].
+  - intros x d Hf. destruct (find_store_in _ _ _ Hf) as [Hin _]. rewrite forallb_forall in H3.
+    apply negb_true_iff. apply H3. exact Hin.
+Qed.
+
+Lemma wf_system_flag sch s : wf_system_b sch s = true -> wf_flag_b sch s = true.
+Proof.
+  unfold wf_system_b, wf_flag_b. intros H.
+  apply andb_prop in H as [H H4]. apply andb_prop in H as [H H3]. apply andb_prop in H as [H1 H2].
+  rewrite H1, H4. unfold cons_of in H3. destruct (find_store sch s); [reflexivity | discriminate].
+Qed.
+
+Lemma create_flag_any_lemma sch s oc st evs s0 i sys fv sv st' evs' :
+  wf_flag_b sch s = true -> root_of sch s0 = s ->
+  op_create sch oc (st, evs) s0 i sys fv sv = Ok (st', evs') ->
+  get_field sch st' s i isSystemF = if sys then FBool true else FAbsent.
+Proof.
+  intros Hwf Hr H. destruct (wf_flag_b_sound sch s Hwf) as [H1 [H2 H3]].
+  exact (op_create_flag_gen sch s H1 H3 oc st evs s0 i sys fv sv st' evs' H2 Hr H).
+Qed.
+
+Lemma op_preserves_flag_any_lemma sch s fuel oc st evs o st' evs' j :
+  wf_flag_b sch s = true ->
+  run_op sch fuel oc (st, evs) o = Ok (st', evs') ->
+  present sch st s j = true -> present sch st' s j = true ->
+  get_field sch st' s j isSystemF = get_field sch st s j isSystemF.
+Proof.
+  intros Hwf. destruct (wf_flag_b_sound sch s Hwf) as [H1 [H2 H3]].
+  exact (run_op_flag sch s H1 H3 fuel oc st evs o st' evs' j).
+Qed.
+
+Lemma flag_immutable_any_lemma sch s fuel j txs st :
+  wf_flag_b sch s = true ->
+  alive_txs sch s fuel j st txs ->
+  get_field sch (run_txs sch fuel st txs) s j isSystemF = get_field sch st s j isSystemF.
+Proof.
+  intros Hwf. destruct (wf_flag_b_sound sch s Hwf) as [H1 [H2 H3]].
+  exact (run_txs_flag sch s H1 H3 fuel j txs st).
 Qed.
